@@ -1,4 +1,6 @@
 import GrinVerif.Lemmas.ChainOrder
+import GrinVerif.Lemmas.ChainOrphan
+import GrinVerif.Lemmas.ChainExampleFacts
 /-! # C03 — head is the most-work validated chain, whatever the arrival order
 (theorems on `Model/Chain.lean`; definitions used in the statements: `Event`, `run`, `Registered`
 in `Lemmas/ChainRun.lean`; `HeadMax`, `StoredClosed`, `HeadStep`, `PassedCheck` in
@@ -168,4 +170,134 @@ theorem winning_chain_alone (p : Params) (n : Node) (es es₃ : List Event) (hf 
   exact ⟨h3, h1, reportedUtxo_congr ((run_defs p n es₃).1.trans (run_defs p n es).1.symm)
     (h3.trans h1.symm) p⟩
 
+
+/-! ## through the orphan pool: children before parents
+
+`HeadersOnly` (only the genesis stored, empty pool, invariants hold — the state after any number of
+header deliveries to a fresh node), `Reach p n D id` (the block `id` and all its ancestors down to
+the genesis are in `D` and pass their own step: header rules + `checkBlock`) and `ValidStep` are
+defined in `Lemmas/ChainOrphan.lean`.
+
+Hypotheses on the history, as in the property text: the header of every delivered block is known
+beforehand ("headers known first"). The model's orphan pool has **no capacity eviction and no
+age-out** (`Params.maxOrphans` is not used by `addOrphan`), so "the pool never exceeds its
+capacity" is not a hypothesis of the theorems below but a condition for the model to describe the
+real node: beyond `MAX_ORPHAN_SIZE` / the orphan age limit the real `OrphanBlockPool` evicts, and
+the theorems say nothing. -/
+
+/-- (d, stretch) **The store after any delivery order** — children before parents, duplicates,
+invalid blocks anywhere: exactly the blocks reachable within the delivered set. No valid orphan is
+ever forgotten by `check_orphans`. -/
+theorem stored_after_any_order (p : Params) (n : Node) (es : List Event) (hn : HeadersOnly p n)
+    (hreg : Registered n es) (hk : ∀ id ∈ blockIds es, id ∈ n.headers) (id : Nat) :
+    id ∈ (run p n es).stored ↔ Reach p n (blockIds es) id :=
+  GV.Chain.stored_after_any_order p n es hn hreg hk id
+
+/-- … and the head is the unique maximum of work among those, when there is one. -/
+theorem head_after_any_order (p : Params) (n : Node) (es : List Event) (hn : HeadersOnly p n)
+    (hreg : Registered n es) (hk : ∀ id ∈ blockIds es, id ∈ n.headers) (w : Nat)
+    (hw : Reach p n (blockIds es) w)
+    (hu : ∀ id, Reach p n (blockIds es) id → id ≠ w → n.workOf id < n.workOf w) :
+    (run p n es).head = w := by
+  have hi := run_preserved (preserved_inv p) n es hreg hn.inv
+  have hdf := run_defs p n es
+  apply head_of_unique_max _ hi.1 hi.2.closed.head w
+  · exact (stored_after_any_order p n es hn hreg hk w).mpr hw
+  · intro s hs hne
+    rw [workOf_congr hdf.1, workOf_congr hdf.1]
+    exact hu s ((stored_after_any_order p n es hn hreg hk s).mp hs) hne
+
+/-- (d, stretch) **Order independence, any order**: two histories over the same set of blocks
+(headers known first; bodies in any order, with repetitions, children before parents) end with the
+same stored set, and — when the maximum of work among the reachable blocks is attained by a unique
+block `w` — on the same head `w` with the same reported unspent set. -/
+theorem order_independent (p : Params) (n : Node) (es₁ es₂ : List Event) (hn : HeadersOnly p n)
+    (hr₁ : Registered n es₁) (hr₂ : Registered n es₂)
+    (hk₁ : ∀ id ∈ blockIds es₁, id ∈ n.headers)
+    (hsame : ∀ id, id ∈ blockIds es₁ ↔ id ∈ blockIds es₂) :
+    (∀ id, id ∈ (run p n es₁).stored ↔ id ∈ (run p n es₂).stored) ∧
+    ∀ w, Reach p n (blockIds es₁) w →
+      (∀ id, Reach p n (blockIds es₁) id → id ≠ w → n.workOf id < n.workOf w) →
+      (run p n es₁).head = w ∧ (run p n es₂).head = w ∧
+      (run p n es₁).reportedUtxo p = (run p n es₂).reportedUtxo p := by
+  have hk₂ : ∀ id ∈ blockIds es₂, id ∈ n.headers := fun id h => hk₁ id ((hsame id).mpr h)
+  have hR : ∀ id, Reach p n (blockIds es₁) id ↔ Reach p n (blockIds es₂) id := fun id =>
+    ⟨fun h => h.mono (fun x hx => (hsame x).mp hx), fun h => h.mono (fun x hx => (hsame x).mpr hx)⟩
+  refine ⟨?_, ?_⟩
+  · intro id
+    rw [stored_after_any_order p n es₁ hn hr₁ hk₁, stored_after_any_order p n es₂ hn hr₂ hk₂, hR id]
+  · intro w hw hu
+    have h1 := head_after_any_order p n es₁ hn hr₁ hk₁ w hw hu
+    have h2 := head_after_any_order p n es₂ hn hr₂ hk₂ w ((hR w).mp hw)
+      (fun id hr hne => hu id ((hR id).mpr hr) hne)
+    exact ⟨h1, h2, reportedUtxo_congr ((run_defs p n es₁).1.trans (run_defs p n es₂).1.symm)
+      (h1.trans h2.symm) p⟩
+
+/-- … **equal to delivering the winning chain alone**: any history over a subset of the blocks
+that still reaches the winner `w` (e.g. exactly the blocks on `w`'s path, in any order) ends on the
+same head and the same reported unspent set. -/
+theorem winning_chain_alone_any_order (p : Params) (n : Node) (es es₃ : List Event)
+    (hn : HeadersOnly p n) (hr : Registered n es) (hr₃ : Registered n es₃)
+    (hk : ∀ id ∈ blockIds es, id ∈ n.headers) (hsub : ∀ id ∈ blockIds es₃, id ∈ blockIds es)
+    (w : Nat) (hw₃ : Reach p n (blockIds es₃) w)
+    (hu : ∀ id, Reach p n (blockIds es) id → id ≠ w → n.workOf id < n.workOf w) :
+    (run p n es₃).head = w ∧ (run p n es).head = w ∧
+    (run p n es₃).reportedUtxo p = (run p n es).reportedUtxo p := by
+  have hk₃ : ∀ id ∈ blockIds es₃, id ∈ n.headers := fun id h => hk id (hsub id h)
+  have h1 := head_after_any_order p n es hn hr hk w (hw₃.mono hsub) hu
+  have h3 := head_after_any_order p n es₃ hn hr₃ hk₃ w hw₃
+    (fun id hr' hne => hu id (hr'.mono hsub) hne)
+  exact ⟨h3, h1, reportedUtxo_congr ((run_defs p n es₃).1.trans (run_defs p n es).1.symm)
+    (h3.trans h1.symm) p⟩
+
+/-- The state "headers first" is reached from a fresh node by header deliveries. -/
+theorem headersOnly_after_headers (p : Params) (n : Node) (bs : List Blk) (hf : Fresh n)
+    (hreg : Registered n (bs.map Event.header)) : HeadersOnly p (run p n (bs.map Event.header)) :=
+  HeadersOnly.after_headers p n bs hf hreg
+
+/-! ## non-vacuity: the hypotheses of the theorems above hold on a concrete tree
+(`Lemmas/ChainExamples.lean`: 0 ── 1 ── 3 ── 4, a lighter sibling 2 of 1, an invalid child 9 of 1
+that claims the most work; facts about it in `Lemmas/ChainExampleFacts.lean`) -/
+section Examples
+open GV.Chain.Ex
+
+-- `head_after_parentsFirst`: all hypotheses hold; the invalid block 9 (most work) does not win
+example : (run P N ex_es₁).head = 3 :=
+  head_after_parentsFirst P N ex_es₁ ex_fresh ex_reg₁ ex_pf₁ 3
+    ⟨ex_vop3, by simp [ex_es₁, blockIds, B3]⟩
+    (by
+      intro id hv hd hne
+      simp only [ex_es₁, blockIds, B1, B2, B3, B9, List.mem_cons, List.not_mem_nil, or_false] at hd
+      rcases hd with rfl | rfl | rfl | rfl | rfl | rfl
+      · decide
+      · decide
+      · decide
+      · -- block 9 is not valid on its path: it spends an output that never existed
+        exfalso
+        have h9 : N.blk (B9.id) = some B9 := rfl
+        obtain ⟨par, s', hpar, _, _, hc⟩ := VOP.inv (b := B9) hv h9 (by decide)
+        have : par = 1 := by
+          have : B9.parent = some 1 := rfl
+          rw [this] at hpar; exact (Option.some.inj hpar).symm
+        subst this
+        have : checkBlock P N B9 1 = .error "AlreadySpent" := rfl
+        rw [this] at hc; cases hc
+      · exact absurd rfl hne
+      · decide)
+
+-- the run itself, evaluated: same head, and the store is {0} ∪ valid-on-path ∩ delivered
+example : (run P N ex_es₁).head = 3 ∧ (run P N ex_es₁).stored = [0, 2, 1, 3] := by decide
+
+-- `HeadMax` / `StoredClosed` / `head_work_monotone` have only `Registered` as hypothesis
+example : HeadMax (run P N ex_es₁) := head_is_max P N ex_es₁ ex_reg₁ (ex_fresh.inv P).1
+
+-- `stored_after_any_order`: hypotheses hold, block 3 delivered before its parent ends up stored
+example : 3 ∈ (run P ex_N₂ ex_es₂).stored :=
+  (stored_after_any_order P ex_N₂ ex_es₂ ex_headersOnly ex_reg₂ (by decide) 3).mpr ex_reach3
+
+-- the orphan pool was really used: after the first delivery 3 sits in the pool
+example : (run P ex_N₂ [.block B3]).orphans = [3] ∧ (run P ex_N₂ ex_es₂).head = 3 ∧
+    (run P ex_N₂ ex_es₂).orphans = [] := by decide
+
+end Examples
 end GV.Props.C03
